@@ -35,7 +35,7 @@ ENCODED = [
 BOUNDS = {
     "quick": "DDM/EDDM/STEPD: one step from an arbitrary state (unbounded history; STEPD window contents L<=2), integer labels vs "
              "opaque equality-only labels, with and without a container around them; ADWINAccuracy N<=6; LFR N<=3 with int / bool / "
-             "list / array encodings of 0/1; unused arguments: 14 detectors, N<=3; concrete label types (str, bool, float, multi-class int, numpy int / str) "
+             "list / array encodings of 0/1 and concrete bool / numpy.bool_ / numpy.int8 / mixed labels under every 0/1 pattern; unused arguments: 14 detectors, N<=3; concrete label types (str, bool, float, multi-class int, numpy int / str) "
              "under every agreement pattern of length 6 for DDM, EDDM, STEPD, ADWINAccuracy",
     "thorough": "STEPD L<=3, ADWINAccuracy N<=8, LFR N<=4, unused arguments N<=4",
 }
@@ -114,6 +114,27 @@ def body_concrete_encodings(ctx, det, enc, container, N):
         sb = {k: v for k, v in vars(B).items() if k != "_bucket_row_list"}
         ctx.prove(states_equal(ctx, sa, sb), "concrete-encoding-same-agreement-same-state")
     ctx.witness("compared")
+
+
+def body_lfr_concrete(ctx, N, kind):
+    """LFR with concrete Python / numpy booleans (and numpy integers) as labels, chosen by symbolic bits: real
+    numpy.bool_ objects index arrays as masks, which a proxy cannot imitate"""
+    with DRIVERS["LinearFourRates"](ctx, burn_in=0, rates_tracked=["ppv"]) as drv:
+        A, B = drv.det, drv.twin()
+        memo = stubs.Memo()
+        for t in (A, B):
+            t._sim_bounds = lambda est, den: memo.get("sim", (est, den), lambda: {k: cur().real(k) for k in
+                                                                                   ("lb_warn", "ub_warn", "lb_detect", "ub_detect")})
+        conv = {"bool": bool, "npbool": np.bool_, "npint8": np.int8, "mixed": None}[kind]
+        for i in range(N):
+            bt, bp = bool(ctx.bool(f"t{i}")), bool(ctx.bool(f"p{i}"))
+            A.update(int(bt), int(bp))
+            if kind == "mixed":
+                B.update(np.bool_(bt), int(bp))
+            else:
+                B.update(conv(bt), conv(bp))
+            ctx.prove(states_equal(ctx, vars(A), vars(B), skip=SKIP_KEYS), "lfr-depends-on-confusion-cell-only")
+        ctx.witness("compared")
 
 
 def body_adwinacc(ctx, N):
@@ -231,6 +252,9 @@ def jobs(tier):
                            opts={"validate": 0}))
     out.append(Job("agree-ADWINAccuracy", "checks.c16:body_adwinacc", {"N": 6 if q else 8}, expect=("compared",),
                    opts={"validate": 0}))
+    for kind in ("bool", "npbool", "npint8", "mixed"):
+        out.append(Job(f"lfr-concrete-{kind}", "checks.c16:body_lfr_concrete", {"N": 3, "kind": kind}, expect=("compared",),
+                       opts={"validate": 0}))
     for enc in ("bool", "list", "array"):
         out.append(Job(f"lfr-{enc}", "checks.c16:body_lfr", {"N": 3 if q else 4, "encoding": enc}, expect=("compared",)))
     dets = [("DDM", {"n_threshold": 1}), ("EDDM", {"n_threshold": 1}), ("STEPD", {"window_size": 1}),
